@@ -1,11 +1,13 @@
 #!/bin/bash
 # tools/run_mutant_copy.sh <patch.diff> <CNN> [quick|thorough]
+# MUT_TAG=<suffix> gives the run its own scratch worktree/harness copy (/tmp/mutwt<suffix>, /tmp/hcopy<suffix>) so that
+# several runs can go on in parallel.
 # Development helper: runs a check against a scratch worktree of /repo (at /repo's HEAD) with the patch applied,
 # through a scratch copy of the harness whose path dependencies point at that worktree. /repo is not touched.
 # (The confirmation runs recorded in /verif/seeded/*/meta.json use tools/run_seeded.sh, which applies to /repo itself.)
 set -u
 patch="$(readlink -f "$1")"; id="$2"; tier="${3:-quick}"
-wt=/tmp/mutwt; hc=/tmp/hcopy
+tag="${MUT_TAG:-}"; wt=/tmp/mutwt$tag; hc=/tmp/hcopy$tag
 bin=$(echo "$id" | tr 'A-Z' 'a-z')
 if [ ! -d $wt ]; then git -C /repo worktree add -q --detach $wt HEAD || exit 2; fi
 git -C $wt checkout -q --detach "$(git -C /repo rev-parse HEAD)" && git -C $wt checkout -q -- . && git -C $wt clean -fdq
@@ -15,7 +17,7 @@ git -C $wt apply "$patch"
 mkdir -p $hc && rsync -a --delete --exclude target /verif/harness/ $hc/
 sed -i "s|\"/repo/|\"$wt/|g" $hc/vx/Cargo.toml $hc/vcheck/Cargo.toml
 sed -i "s|^target-dir.*|target-dir = \"$hc/target\"|" $hc/.cargo/config.toml
-root=/tmp/hcopy-root; mkdir -p $root; cp /verif/known_findings.json $root/
+root=/tmp/hcopy-root$tag; mkdir -p $root; cp /verif/known_findings.json $root/
 ( cd $hc && cargo build --release --offline -q -p vcheck --bin $bin 2>&1 | tail -20 ) || true
 if [ ! -x $hc/target/release/$bin ]; then echo "RESULT $id BUILD-FAILED"; git -C $wt checkout -q -- .; exit 2; fi
 out=$(VERIF_ROOT=$root $hc/target/release/$bin --tier $tier 2>&1); rc=$?
